@@ -64,7 +64,9 @@ func VerifC28Bytes(name string, max int) []byte {
 func verifC28HB() int { return verifrt.Bound("hashbytes", 2, 4) }
 
 // VerifC28Hash: a hash as the JSON decoders produce it: valuehash.Bytes of any length (here 1..HB).
-func VerifC28Hash(name string) util.Hash { return valuehash.NewBytes(VerifC28Bytes(name, verifC28HB())) }
+func VerifC28Hash(name string) util.Hash {
+	return valuehash.NewBytes(VerifC28Bytes(name, verifC28HB()))
+}
 
 // VerifC28HonestHash: a hash field of the honest object: 2 symbolic bytes.
 func VerifC28HonestHash(name string) util.Hash {
@@ -400,7 +402,11 @@ func VerifC28BallotSignFact() {
 	}
 	err := verifC28BallotSignFact(other.fact(), osign).IsValid(onet)
 	verifrt.Reach("C28.ballot.mutated." + what)
-	verifrt.Assert(err != nil, "C28.ballot-sign-fact.changing-"+what+"-makes-validation-fail")
+	label := "C28.ballot-sign-fact.changing-" + what + "-makes-validation-fail"
+	if err == nil && what == "fact(expel-facts)" && !bytes.Equal(verifC28FlatHashes(other.expels), verifC28FlatHashes(honest.expels)) {
+		label += "(lists-whose-concatenated-bytes-differ)"
+	}
+	verifrt.Assert(err != nil, label)
 }
 
 // ---- proposal ----------------------------------------------------------------------
@@ -445,6 +451,23 @@ func verifC28HonestOperations(name string) [][2]util.Hash {
 		verifrt.Assume(!ops[0][0].Equal(ops[1][0]) && !ops[0][1].Equal(ops[1][1]))
 	}
 	return ops
+}
+
+func verifC28FlatOperations(a [][2]util.Hash) []byte {
+	var b []byte
+	for i := range a {
+		b = append(b, a[i][0].Bytes()...)
+		b = append(b, a[i][1].Bytes()...)
+	}
+	return b
+}
+
+func verifC28FlatHashes(a []util.Hash) []byte {
+	var b []byte
+	for i := range a {
+		b = append(b, a[i].Bytes()...)
+	}
+	return b
 }
 
 func verifC28SameOperations(a, b [][2]util.Hash) bool {
@@ -525,7 +548,12 @@ func VerifC28ProposalSignFact() {
 	}
 	err := rebuild(other, osign).IsValid(onet)
 	verifrt.Reach("C28.proposal.mutated." + what)
-	verifrt.Assert(err != nil, "C28.proposal-sign-fact.changing-"+what+"-makes-validation-fail")
+	label := "C28.proposal-sign-fact.changing-" + what + "-makes-validation-fail"
+	if err == nil && mut == 4 && !bytes.Equal(verifC28FlatOperations(other.operations), verifC28FlatOperations(honest.operations)) {
+		// (the class tells a list with other bytes from a re-split of the same bytes, which is a known finding)
+		label += "(lists-whose-concatenated-bytes-differ)"
+	}
+	verifrt.Assert(err != nil, label)
 }
 
 // ---- two facts of different kinds never share a hash --------------------------------
@@ -590,8 +618,8 @@ func VerifC28KindsNeverShareHash() {
 // VerifC28ManifestFields: the members of a manifest document as Manifest.UnmarshalJSON assigns them.
 type VerifC28ManifestFields struct {
 	Hash, Previous, Proposal, OperationsTree, StatesTree, Suffrage util.Hash
-	Height                                                          base.Height
-	ProposedAt                                                      time.Time
+	Height                                                         base.Height
+	ProposedAt                                                     time.Time
 }
 
 func VerifC28ManifestFieldsOf(m Manifest) VerifC28ManifestFields {
